@@ -168,26 +168,38 @@ def run(eng: Engine, ck: Check):
     for f, st, v in eng.stores_to_attr('peer_connections'):
         ck.ob('R-C10-REGISTRY', f, st, 'peer_connections is re-bound only in Network.__init__',
               f.qualname == 'Network.__init__', f'store in {f.qualname}', construct=alpha_key(st))
-    h = eng.func(NET, 'Network._on_peer_connection_state_changed')
-    rm = calls_on(h.node, 'remove_peer_connection')
+    # the unregistration is reached from Network.on_state_changed, directly or through one private handler; the guards along that
+    # chain must be exactly: "it is a PeerConnection" and "the new state is CLOSED"
+    osc = eng.func(NET, 'Network.on_state_changed')
+
+    def chain(fn: FuncInfo, acc: list, depth: int):
+        out = []
+        for call in calls_in(fn.node):
+            gs = acc + [(e, pol) for e, pol, _ in eng.guards_at(fn, call)]
+            if call_name(call) == 'remove_peer_connection':
+                out.append((fn, call, gs))
+            elif depth > 0 and isinstance(call.func, ast.Attribute) and unparse(call.func.value) == 'self':
+                for cal in eng.res.callees(call, fn):
+                    if cal.cls is fn.cls and cal is not fn and cal.name != 'remove_peer_connection':
+                        out += chain(cal, gs, depth - 1)
+        return out
+    rm = chain(osc, [], 2)
     ck.floor('R-C10-REGISTRY.closed', len(rm), 1)
-    for call in rm:
-        gs = eng.guards_at(h, call)
+    for fn_, call, gs in rm:
+        ck.visited(fn_)
         only_closed = any(state_guard(e, pol, 'state', {'CLOSED'}) is True or
                           (pol and isinstance(e, ast.Compare) and mentions_name(e, 'state') and
-                           enum_members_in(e) == {'CLOSED'}) for e, pol, _ in gs)
-        extra = [unparse(e) for e, pol, _ in gs if not (mentions_name(e, 'state') or mentions_attr(e, 'state'))]
-        ck.ob('R-C10-REGISTRY', h, call, 'a peer connection is unregistered exactly when it reports CLOSED',
-              only_closed and not extra, f'guards: {[unparse(e) + ("" if p else " [negated]") for e, p, _ in gs]}',
+                           enum_members_in(e) == {'CLOSED'}) for e, pol in gs)
+        is_peer = any(isinstance(e, ast.Call) and call_name(e) == 'isinstance' and mentions_name(e, 'PeerConnection') and pol for e, pol in gs)
+        extra = [unparse(e) for e, pol in gs if not (mentions_name(e, 'state') or mentions_attr(e, 'state') or
+                                                     (isinstance(e, ast.Call) and call_name(e) == 'isinstance'))]
+        ck.ob('R-C10-REGISTRY', fn_, call, 'a peer connection is unregistered exactly when it reports CLOSED '
+              '(on_state_changed -> [handler ->] remove_peer_connection, conditional on nothing but the connection type and the new state)',
+              only_closed and is_peer and not extra, f'guards along the chain: {[unparse(e) + ("" if p else " [negated]") for e, p in gs]}',
               construct='remove on CLOSED')
-    osc = eng.func(NET, 'Network.on_state_changed')
-    disp = calls_on(osc.node, '_on_peer_connection_state_changed')
-    ck.ob('R-C10-REGISTRY', osc, osc.node, 'on_state_changed forwards peer connection state changes to the registry handler',
-          len(disp) == 1 and all(any(call_name(getattr(e, 'func', None) and e) == 'isinstance' and
-                                     mentions_name(e, 'PeerConnection') and pol for e, pol, _ in eng.guards_at(osc, d))
-                                 and not any(mentions_name(e, 'state', 'close_reason') for e, pol, _ in eng.guards_at(osc, d))
-                                 for d in disp),
-          'dispatch missing or conditional on more than the connection type', construct='dispatch to registry handler')
+    for caller, call, how in eng.res.callers_of(eng.func(NET, 'Network.remove_peer_connection')):
+        ck.ob('R-C10-REGISTRY', caller, call, 'remove_peer_connection is called only on the CLOSED path of on_state_changed',
+              any(call is c_ for _, c_, _g in rm), f'called from {caller.qualname}', construct=f'{caller.qualname} unregisters')
     ck.ob('R-C10-REGISTRY', ss, ss.node, 'set_state reports every change to network.on_state_changed',
           len(calls_on(ss.node, 'on_state_changed')) == 1 and not eng.guards_at(ss, calls_on(ss.node, 'on_state_changed')[0])
           if calls_on(ss.node, 'on_state_changed') else False,
